@@ -1,9 +1,14 @@
-(* C04 — the correspondence entry of suite "txn" with the side conditions of the
-   theorems CHECKED per case (definitions only; soundness in SuiteProofs.v).
+(* C04 — the side conditions of the theorems CHECKED per case of suite "txn"
+   (definitions only; soundness in SuiteProofs.v).
 
-   [run_case] (Model.v) compares the model with the observables of the
-   implementation.  [run_case_checked] additionally evaluates, on the case's own
-   data, the hypotheses under which Property.v speaks about that case:
+   LIVE: [case_ok] (with [acyclicb], [names_ok]) - evaluated on every case by the
+   suite's entry point [OrderSuite.run_case_ord] -> [Instance.run_case_inst].
+   NOT EVALUATED BY ANY SUITE any more (kept as the history of the entry point;
+   no theorem is about them): [run_case_checked] below and [Model.run_case],
+   the entries of suite "txn" before the instance round.
+
+   [case_ok] evaluates, on the case's own data, the hypotheses under which
+   Property.v speaks about that case:
      - every flow of the case is acyclic ([acyclicb]: a rank computed by
        relaxation decreases along every connection), so that
        C04_suite_fuel_is_enough gives [sel_ok (fuel_for fs)] for the decoded
@@ -62,7 +67,10 @@ Definition case_ok (kq : case_q) : bool :=
   && sys_selected_ok gs (dec_sel fs s1)
   && match s2 with Some e => sys_selected_ok gs (dec_sel fs e) | None => true end.
 
-(* None = the implementation's observables equal the model's AND the hypotheses
+(* DEAD ENTRY POINT - evaluated by no suite since the instance round (the suite
+   calls [Instance.run_case_inst], which evaluates the same [case_ok] and compares
+   the events itself, with the node -> instance resolution inside the model).
+   None = the implementation's observables equal the model's AND the hypotheses
    hold; otherwise: do the hypotheses hold?, and what the model says when the
    observables differ *)
 Definition run_case_checked (kq : case_q)
